@@ -8,6 +8,8 @@ import traceback
 import warnings
 
 warnings.filterwarnings("ignore")
+import logging
+logging.disable(logging.ERROR)
 
 
 def main():
